@@ -303,6 +303,7 @@ func (cs *crashRun) recover(dir string, retry bool) *recovered {
 	rec := &recovered{}
 	infra := inBubble(cs.t, func() {
 		w := simrt.NewWorld(1, synctest.Wait)
+		w.StrictLocks = os.Getenv("VERIF_LOOSE_LOCKS") == ""
 		defer w.Close()
 		replica.HoleCreatorChan = make(chan replica.Hole, 1<<12)
 		types.DrainOps = 0
